@@ -98,6 +98,8 @@ structure St where
   dead : Bool := false
   /-- `some` while a system-level case (header kind `sys`) is being judged by `Driver.C13Sys` -/
   sys : Option Driver.C13Sys.St := none
+  /-- `some` in an `evq` case: the numbering of the event queue (`Subs.EvQ`) -/
+  evq : Option EvQ := none
 
 def pathEntry (u : Nat × Nat × Nat) : Entry := { ep := u.1, cl := u.2.1, attr := u.2.2, id := 0 }
 
@@ -352,7 +354,8 @@ def modelStep (m : State) (ws : List String) : Option (State × String) :=
   | ["add", now, fab, peer, mn, mx, ev] =>
     match now.toNat?, fab.toNat?, peer.toNat?, mn.toNat?, mx.toNat?, ev.toNat? with
     | some now, some fab, some peer, some mn, some mx, some ev =>
-      let r := m.add now fab peer mn mx ev
+      -- the `u32` arithmetic of `next_subscription_id` (equal to `State.add` below 2^32: `C13.add_u32_agrees`)
+      let r := m.addU32 now fab peer mn mx ev
       some (r.1, match r.2 with | some id => s!"some {id}" | none => "none")
     | _, _, _, _, _, _ => none
   | ["rep", now, ev] =>
@@ -407,6 +410,7 @@ def step (st : St) (line : String) : St × String :=
   let (op, out) := splitArrow line
   match words op with
   | "case" :: _ :: "sys" :: hdr => ({ sys := some (Driver.C13Sys.initSt hdr) }, "case")
+  | "case" :: _ :: "evq" :: _ => ({ evq := some EvQ.new }, "case")
   | "case" :: _ :: _ :: ns :: hzs :: _ =>
     match ns.toNat?, hzs.toNat? with
     | some n, some hz => ({ m := State.new hz n }, "case")
@@ -415,6 +419,22 @@ def step (st : St) (line : String) : St × String :=
     if let some s := st.sys then
       let (s', v) := Driver.C13Sys.step s ws out
       ({ st with sys := some s' }, v)
+    else
+    if let some q := st.evq then
+      -- the event queue's numbering: model = `EvQ.push` / `EvQ.watermark`; oracle: the numbers `push`
+      -- hands out are consecutive and the watermark is the last one handed out
+      match ws with
+      | ["push", ks] =>
+        let k := (ks.toNat?).getD 1
+        let (q', nums) := (List.range k).foldl (fun (acc : EvQ × List Nat) _ =>
+          let r := acc.1.push
+          (r.2, acc.2 ++ [r.1])) (q, [])
+        let m := s!"{nums.head?.getD 0}-{nums.getLast?.getD 0} {q'.next}"
+        if m = out then ({ st with evq := some q' }, "ok") else ({ st with evq := some q' }, s!"DIS {m}")
+      | ["wm"] =>
+        let m := toString q.watermark
+        if m = out then (st, "ok") else (st, s!"DIS {m}")
+      | _ => (st, "BAD evq op")
     else
     if st.dead then (st, "ok") else
     if (words out).head? = some "panic" then ({ st with dead := true }, "ORA the implementation panicked") else
